@@ -13,29 +13,36 @@
 EXTENDS Integers, Sequences, FiniteSets, TLC, Json, IOUtils
 
 Trace == ndJsonDeserialize(IOEnv.VERIF_TRACE)
-VARIABLES l, running, oks
-vars == <<l, running, oks>>
+VARIABLES l, running, oks,
+          looped   \* groups for which a RefreshLoop call has reported that it started the loop (loops end only at Stop)
+vars == <<l, running, oks, looped>>
 SeqToSet(s) == { s[i] : i \in DOMAIN s }
 GroupsSeen == {"g1", "g2", "g3"}
 
-Init == l = 1 /\ running = [g \in GroupsSeen |-> {}] /\ oks = [g \in GroupsSeen |-> {}] /\ TLCSet(1, 1)
+Init == l = 1 /\ running = [g \in GroupsSeen |-> {}] /\ oks = [g \in GroupsSeen |-> {}] /\ looped = {} /\ TLCSet(1, 1)
 Say(vs) == IF vs = {} THEN TRUE ELSE PrintT(<<"VIOL", l, vs>>)
 
 Step ==
    /\ l <= Len(Trace)
    /\ LET r == Trace[l] IN
-        CASE r.ev = "reset" -> running' = [g \in GroupsSeen |-> {}] /\ oks' = [g \in GroupsSeen |-> {}]
+        CASE r.ev = "reset" -> running' = [g \in GroupsSeen |-> {}] /\ oks' = [g \in GroupsSeen |-> {}] /\ looped' = {}
+          [] r.ev = "loop" ->
+               \* "at most one refresh loop per group until stopped": only one caller is ever told that it started it
+               /\ Say(IF r.started /\ r.g \in looped THEN {"C17_OneLoopPerGroup"} ELSE {})
+               /\ looped' = IF r.started THEN looped \cup {r.g} ELSE looped
+               /\ UNCHANGED <<running, oks>>
           [] r.ev = "fillstart" ->
                /\ Say(IF running[r.g] # {} THEN {"C17_OneFillPerGroup"} ELSE {})
-               /\ running' = [running EXCEPT ![r.g] = @ \cup {r.id}] /\ UNCHANGED oks
+               /\ running' = [running EXCEPT ![r.g] = @ \cup {r.id}] /\ UNCHANGED <<oks, looped>>
           [] r.ev = "fillend" ->
                /\ running' = [running EXCEPT ![r.g] = @ \ {r.id}]
                /\ oks' = IF r.res = "ok" THEN [oks EXCEPT ![r.g] = @ \cup {SeqToSet(r.mem)}] ELSE oks
+               /\ UNCHANGED looped
           [] r.ev = "get" ->
                /\ Say(IF r.has /\ SeqToSet(r.mem) \notin oks[r.g] THEN {"C17_OnlyWhatWasSaid"} ELSE {})
-               /\ UNCHANGED <<running, oks>>
-          [] r.ev = "leftloop" -> Say({"C17_OneLoopPerGroup"}) /\ UNCHANGED <<running, oks>>
-          [] OTHER -> UNCHANGED <<running, oks>>
+               /\ UNCHANGED <<running, oks, looped>>
+          [] r.ev = "leftloop" -> Say({"C17_OneLoopPerGroup"}) /\ UNCHANGED <<running, oks, looped>>
+          [] OTHER -> UNCHANGED <<running, oks, looped>>
    /\ l' = l + 1
 Spec == Init /\ [][Step]_vars
 Track == IF l > TLCGet(1) THEN TLCSet(1, l) ELSE TRUE
